@@ -198,7 +198,9 @@ func runC10(r *Run) {
 			fmt.Sprintf("holds for all %d (purgeHeight, height) pairs of the domain", n),
 			"the purge window differs: "+bad+" (a validator purged in block H stays in Tendermint's set during H+1 and H+2; removing it again is rejected by Tendermint)", p.ipos(zeroStore))
 		// SetLastPurgeHeight before the next address
-		reach := reachFromInstr(zeroStore, nil, func(ins ssa.Instruction) bool { return calleeName(ins) == "(*identity.ValidatorStore).SetLastPurgeHeight" })
+		reach := reachFromInstr(zeroStore, nil, func(ins ssa.Instruction) bool {
+			return calleeName(ins) == "(*identity.ValidatorStore).SetLastPurgeHeight"
+		})
 		leak := false
 		for ins := range reach {
 			if ins == ssa.Instruction(gph) {
